@@ -18,16 +18,16 @@ import (
 )
 
 type geoLoop struct {
-	Fn        *ssa.Function
-	Acc       *ssa.Phi
-	AccNew    *ssa.BinOp
-	Mult      *ssa.Phi
-	R, M, B   int64
-	C0        int64
-	Guard     *ssa.If
+	Fn          *ssa.Function
+	Acc         *ssa.Phi
+	AccNew      *ssa.BinOp
+	Mult        *ssa.Phi
+	R, M, B     int64
+	C0          int64
+	Guard       *ssa.If
 	GuardStrict bool // m > B (true) or m >= B (false)
-	Bound     *big.Int
-	ByteVal   ssa.Value // x before masking
+	Bound       *big.Int
+	ByteVal     ssa.Value // x before masking
 }
 
 func maskOf(v ssa.Value) (ssa.Value, int64, bool) {
@@ -54,7 +54,7 @@ func maskOf(v ssa.Value) (ssa.Value, int64, bool) {
 // findGeoLoop recognises the accumulator loop in fn that produces value v (the
 // accumulated sum as stored or returned).
 func findGeoLoop(fn *ssa.Function, v ssa.Value) (*geoLoop, string) {
-	v = stripConvs(v)
+	v = stripConvsSafe(v)
 	add, ok := v.(*ssa.BinOp)
 	if !ok || add.Op != token.ADD {
 		// the value may be the accumulator phi's successor seen through a phi at the exit
